@@ -698,6 +698,18 @@ def k_monitor(sc, blocks):
                     if not g & J and s not in pt["sess"]:
                         res.append(("banned-user-attached" if kind == "sub" and u == a else "attached-without-join", k,
                                     "%s: session %d of user %d becomes attached, grant %s" % (tok, s, u, mstr(g))))
+            # the attachment table under bans, p2p and {sub new} groups (same laws as g_attach_monitor)
+            if tok[0] in "pg" and pt["cache"] is not None and kind != "unload":
+                told = set(s for s, f in b["frames"] if f.startswith("ctrl 205"))
+                for s, u in sorted(pt["sess"].items()):
+                    pe = pt["cache"].get(u, (0, 0, False))
+                    if t["cache"] is not None and s in t["sess"]:
+                        e = t["cache"].get(u, (0, 0, True))
+                        if (not (e[0] & e[1] & J) or e[2]) and pe[0] & pe[1] & J and not pe[2]:
+                            res.append(("no-session-attached-without-join", k, "%s: session %d of user %d stays attached after %s of user %s left the effective mode %s%s"
+                                        % (tok, s, u, kind, a, mstr(e[0] & e[1]), " (deleted)" if e[2] else "")))
+                    elif t["cache"] is not None and not (kind == "leave" and s == si) and s not in told:
+                        res.append(("evicted-session-notified", k, "%s: session %d of user %d was detached by %s of user %s without {ctrl 205}" % (tok, s, u, kind, a)))
             if tok[0] == "p":
                 x, y = (int(z) for z in tok[1:].split("."))
                 for where, rows, prows in places:
